@@ -62,11 +62,27 @@ CLAIMED = {
   'design_ref': 'DESIGN.md section 5 C08',
   'note': 'Trusted: Verus/Z3, vstd; FeelNumber predicates/conversions as stated stubs; String char iteration stubs; core functions uninterpreted in the dispatch unit. Not decided: regex/conversion/aggregate functions, sort, flatten/union/distinct values.',
  },
+ 'C05': {
+  'text': 'Partial. The conjunction of the automatic Verus obligations (arithmetic overflow/underflow, division by zero, index and slice bounds, Option::unwrap, and termination where a decreases clause is given) '
+          'of every function under contract in all units: the FEEL lexer layout/literal functions (with termination), FeelIterator::run for all isize bounds, the list/string position built-ins for extreme positions and lengths, '
+          'calendar and duration arithmetic, type relations. Plus a BOUNDED stand-in (labelled bounded, not counted as proved) for the byte-indexed string search built-ins.',
+  'design_ref': 'DESIGN.md section 5 C05',
+  'note': 'Trusted: Verus/Z3, vstd and the stated std specs. Not decided: the LALR parse driver and reduce actions, read_next_token, consume_name, evaluator recursion depth, regex/chrono panics, '
+          'built-ins not under contract, format!-built messages. abs() at MIN and nanoseconds >= 2^32 are excluded by stated preconditions.',
+ },
+ 'C06': {
+  'text': 'Partial (literals, character classes, layout). Verus proves on the real lexer bodies: the name/digit/whitespace character classes equal grammar rules 28-30 and 61-62; white space and any number of comments '
+          'are skipped before a token (read_input ends at a non-layout character; consecutive comments included); consume_digits returns the maximal digit run; \\uXXXX / \\UXXXXXX escapes have their hexadecimal value; '
+          'consume_unicode yields exactly the denoted scalar value for every 4-hex, 6-hex and surrogate-pair escape (UTF-8 assembly proved with bit-vector lemmas against RFC 3629) and errors otherwise; '
+          'consume_string returns exactly the code points the literal denotes (all escape forms) and accepts every well-formed literal. Precedence/associativity are NOT decided.',
+  'design_ref': 'DESIGN.md section 5 C06',
+  'note': 'Trusted: Verus/Z3; String::from_utf8 = RFC 3629 decoding (stub); char classification std specs. Not decided: LALR tables and reduce actions (operator precedence, associativity), keyword/number tokenisation, names.',
+ },
 }
 NOT_APPLICABLE = {
  'C02': TODO, 'C03': TODO,
  'C04': 'the property is about dyn Fn closures stored in RwLock<HashMap> registries calling one another along the requirement graph; no first-order function carries it, Verus has no support for dyn Fn fields / std RwLock guards, Kani cannot bound the graph (DESIGN.md section 6)',
- 'C05': TODO, 'C06': TODO,
+
  'C07': 'deciding code is str/format!/C decNumber string conversion (scientific_to_plain, decQuadToString); Verus has no specs for these str APIs and Kani/CBMC did not finish a 3-character instance in 15 min (DESIGN.md section 6)',
  'C10': TODO, 'C11': TODO, 'C12': TODO, 'C13': TODO,
  'C18': TODO, 'C19': TODO,
